@@ -35,13 +35,14 @@ def generate(tier, rng):
     # (fine64: six steps of 1/64 year at the calendar year 2000 with lifetimes of a few weeks; its "shift" moves the items to 0 .. 5/64,
     #  all of it exactly representable: where on the time axis a grid lies must not matter, however fine it is)
     FINE = [2000 + i / 64 for i in range(6)]
-    for gname in grids + ["fine64"]:
+    # (almost_even: calendar years with two items a few days off an even spacing; its shift moves the items to 0 .. 4)
+    for gname in grids + ["fine64", "almost_even"]:
         grid = FINE if gname == "fine64" else c03.GRIDS[gname]
         ex = gname in c03.EXACT_GRIDS
         for extra in extras:
             if not ex and len(extra) == 2 and tier == "quick":
                 continue
-            if gname == "fine64" and len(extra) > 1:
+            if gname in ("fine64", "almost_even") and len(extra) > 1:
                 continue
             N = int(np.prod(sd.shape_of(grid, extra)))
             lts = c03.lifetimes(rng, grid, extra, k) if ex else [dict(kind="lognormal", mean=9, std=4), dict(kind="weibull", shape=2.0, scale=8)]
@@ -73,7 +74,7 @@ def generate(tier, rng):
                         d2 = [str(Fraction(v, 2 ** 40)) for v in d2]
                         tiny = True
                     cases.append(dict(stream="exact" if ex else "tolerance", coq=ex, tiny=tiny, gname=gname, extra=extra, base=base,
-                                      d1=d1, d2=d2, a=rng.choice([2, -1, 3]), b=rng.choice([1, 2, -2]), shift=(-2000 if gname == "fine64" else rng.choice([37, -12, 100])),
+                                      d1=d1, d2=d2, a=rng.choice([2, -1, 3]), b=rng.choice([1, 2, -2]), shift=(-2000 if gname in ("fine64", "almost_even") else rng.choice([37, -12, 100])),
                                       tails=[[rng.randint(0, 6) for _ in range(N)] for _ in range(len(grid))]))
     return cases
 
